@@ -1322,7 +1322,7 @@ def make_htlc_shake256_lock(
     receiver_pubkey = _pubkey(receiver_pubkey)
     refund_pubkey = _pubkey(refund_pubkey)
     return Script.from_src(f'''
-        shake256 d{hash_size}
+        shake256 x{hash_size:02x}
         push x{digest.hex()}
         equal
         if {{
@@ -1437,17 +1437,17 @@ def make_htlc2_shake256_lock(
     receiver_pubkey = _pubkey(receiver_pubkey)
     refund_pubkey = _pubkey(refund_pubkey)
     return Script.from_src(f'''
-        shake256 d{hash_size}
+        shake256 x{hash_size:02x}
         push x{digest.hex()}
         equal
         if {{
-            dup shake256 d{hash_size}
-            push ~! {{ push x{receiver_pubkey.hex()} shake256 d{hash_size} }}
+            dup shake256 x{hash_size:02x}
+            push ~! {{ push x{receiver_pubkey.hex()} shake256 x{hash_size:02x} }}
         }} else {{
             push d{int(time())+timeout}
             check_timestamp_verify
-            dup shake256 d{hash_size}
-            push ~! {{ push x{refund_pubkey.hex()} shake256 d{hash_size} }}
+            dup shake256 x{hash_size:02x}
+            push ~! {{ push x{refund_pubkey.hex()} shake256 x{hash_size:02x} }}
         }}
         equal_verify
         check_sig x{sigflags}
